@@ -830,4 +830,76 @@ theorem race_replays_flushed_entry :
     st.stored = some 0 ∧ st.groupAck = 0 ∧ (⟨1, 0, 0⟩ : Row) ∈ fileRows st ∧ (⟨1, 0, 0⟩ : Row) ∈ st.memMut := by
   decide
 
+/-! ### round 8: the manifest record of a data flush as a crash point; the family's sequence maps -/
+
+/-- A crash right BEFORE the manifest record of a data flush (the table file is complete but no manifest
+names it: an orphan) is a plain crash: the switch of the memory databases has no durable effect.
+(Cases 26 and the random `crash-before-data-manifest-record` images replay this on the real node.) -/
+theorem orphan_table_crash_is_plain_crash (cfg : Cfg) (st : St) :
+    step cfg (step cfg st .freeze) .crash = step cfg st .crash := by
+  simp only [step, whenRunning]
+  split
+  · simp only [doFreeze]
+    split
+    · split <;> rfl
+    · rfl
+  · rfl
+
+/-- The data files and the stored sequence change in ONE event only — `dataCommit`, the single manifest
+record that carries the table AND the sequences — and in no other: there is no state in which a sequence
+is durable without the table that holds the entries up to it (what a split commit would allow). -/
+theorem files_and_stored_change_only_at_dataCommit (cfg : Cfg) (st : St) (e : Ev) (h : e ≠ .dataCommit) :
+    (step cfg st e).files = st.files ∧ (step cfg st e).stored = st.stored := by
+  cases e <;> first
+    | exact absurd rfl h
+    | (simp only [step, whenRunning, doCrash, doRecover, doRewind, doAppend, doAppendBad, doApplyBegin, beginAt,
+        ignoreMsg, ackTo, ackOpt, addNames, doApplyTake, doApplyAcquire, doApplyWrite, putRow, doApplyCommit,
+        doFreeze, doAckCallback, doLogGC, doWalExpire]
+       repeat' split
+       all_goals simp)
+
+/-- hence along ANY history the newest data file and the stored sequence move together: between two
+`dataCommit`s every crash image shows the same files and the same stored sequence -/
+theorem files_and_stored_frozen_between_commits (cfg : Cfg) (st : St) (evs : List Ev)
+    (h : ∀ e ∈ evs, e ≠ .dataCommit) :
+    (run cfg st evs).files = st.files ∧ (run cfg st evs).stored = st.stored := by
+  induction evs generalizing st with
+  | nil => exact ⟨rfl, rfl⟩
+  | cons e es ih =>
+    have h1 := files_and_stored_change_only_at_dataCommit cfg st e (h e (by simp))
+    have h2 := ih (step cfg st e) (fun x hx => h x (by simp [hx]))
+    simp only [run, List.foldl_cons] at h2 ⊢
+    exact ⟨h2.1.trans h1.1, h2.2.trans h1.2⟩
+
+/-- `ValidateSequence` as the model has it: a leader without entry passes, otherwise strictly above -/
+theorem validSeq_iff (st : St) (s : Int) :
+    validSeq st s = true ↔ ∀ q, st.seq = some q → q < s := by
+  unfold validSeq
+  cases hq : st.seq with
+  | none => simp
+  | some q => simp
+
+open LinVerif.Generated.C07 in
+/-- the family's sequence maps in the code are the model's: `ValidateSequence` = "no entry, or strictly
+greater" behind a negated guard in `Replica`; `newDataFamily` loads BOTH `seq` and `persistSeq` from the
+recovered version (`doRecover`: `seq := stored`, and the registration-time ack of `persistSeq`);
+`Flush` / `Close` capture `seq` (`doFreeze`: `captured := seq`), `Flush` records the captured value as
+persisted; `CommitSequence` stores the entry's sequence; `AckSequence` calls a new callback at once with the
+persisted sequence; the flush passes each captured (leader, sequence) both to the kv flusher and to the
+callbacks; the local replicator rewinds to ack + 1 -/
+theorem sequence_maps_are_code :
+    validateSequenceReturns = ["seq > seqForLeader.Load()", "true"] ∧
+    replicaFirstGuard = "!r.family.ValidateSequence(r.leader, sequence)" ∧
+    newDataFamilySeqAssigns = ["sequences := snapshot.GetCurrent().GetSequences()",
+      "f.seq[leader] = *atomic.NewInt64(seq)", "f.persistSeq[leader] = *atomic.NewInt64(seq)"] ∧
+    flushSeqAssigns = ["immutableSeq := make(map[int32]int64)", "immutableSeq[leader] = seq.Load()",
+      "f.immutableSeq = immutableSeq", "f.immutableSeq = nil", "f.persistSeq[leader] = *atomic.NewInt64(seq)"] ∧
+    closeSeqAssigns = ["sequences := make(map[int32]int64)", "sequences[leader] = seq.Load()"] ∧
+    commitSequenceAssigns = ["seqForLeader := f.seq[leader]", "f.seq[leader] = seqForLeader"] ∧
+    commitSequenceStoreArgs = ["seq"] ∧
+    ackSequenceAssigns = ["f.callbacks[leader] = append(f.callbacks[leader], fn)", "seqForLeader, ok := f.persistSeq[leader]"] ∧
+    ackSequenceFnArgs = ["seqForLeader.Load()"] ∧
+    flushMemDBCallbackArgs = ["seq"] ∧ flushMemDBSequenceArgs = ["leader, seq"] ∧
+    newLocalReplicatorResetArgs = ["lr.AckIndex() + 1"] := by decide
+
 end LinVerif.Props.C07
